@@ -154,6 +154,27 @@ impl Ww {
                 self.stats.inc("probe_multi_block_delta");
             }
         }
+        // a damaged copy first: decoding the valid message afterwards must not depend on it
+        if self.step % 2 == 0 && bytes.len() > 8 && (bytes.len() < 8_000 || self.step % 4 == 0) {
+            let mut bad = bytes.clone();
+            match self.step % 3 {
+                0 => bad.truncate(bytes.len() - 1),
+                1 => bad.truncate(bytes.len() * 2 / 3),
+                _ => {
+                    let i = bad.len() - 2;
+                    bad[i] = 0xff;
+                }
+            }
+            if guarded(|| {
+                let mut c = &bad[..];
+                ChitchatMessage::deserialize(&mut c).is_ok()
+            })
+            .is_err()
+            {
+                return Err(Violation { property: "C09".into(), code: "C09.decode_panic".into(), step: self.step, detail: "decoder panicked on a damaged datagram".into(), finding: String::new() });
+            }
+            self.stats.inc("damaged_datagram_decoded_before_valid_one");
+        }
         // real decoder on independently encoded bytes
         let mut cur = &bytes[..];
         let real = match guarded(|| ChitchatMessage::deserialize(&mut cur)) {
